@@ -355,7 +355,7 @@ func init() {
 		RuleText: "random Add/Remove/Flush histories (distinct ids; Gaussian, lattice, duplicate and near-tie vectors; 3 metrics) with searches over k in Z, thresholds incl. exactly-a-reported-distance and midpoints, id restrictions incl. absent ids; a case is non-trivial when some search returned a non-empty answer AND (a successful removal preceded it OR the filter/threshold excluded a live vector OR k truncated the candidates); distinct = distinct request streams",
 		NCases: func(tier string) int {
 			if tier == "thorough" {
-				return 6000
+				return 40000
 			}
 			return 400
 		},
